@@ -74,7 +74,8 @@ def gen_plan(prop, tier, rng, i):
     if prop == "C09":
         plan["reader_at_frac"] = sorted(rng.random() for _ in range(2))
         if i % 4 == 1:
-            plan["second_session"] = {"off": rng.choice([0.0, 0.3, 0.9]), "multi": rng.random() < 0.5}
+            plan["second_session"] = {"off": rng.choice([0.0, 0.3, 0.9]), "multi": rng.random() < 0.5,
+                                      "earlier": rng.random() < 0.35}
     if prop == "C10":
         if thorough or i % 4 == 0:
             plan["faults"] = "all"
@@ -643,6 +644,50 @@ def _second_session(prop, plan, res, obs, tracker1, tree, sc, cfg):
     runs at every boundary of the second process."""
     files = tracker1.model.files()
     if not files:
+        return
+    if plan["second_session"].get("earlier"):
+        # back-fill: the second recorder (clock stepped back / gap filled from another source) records periods
+        # BEFORE everything the first one wrote; the long-lived readers have already reported bounds
+        cap = cfg.typical_capacity()
+        T0 = files[0] - 3 * cfg.file_ms
+        if T0 < 0:
+            return
+        c2 = M.Cfg(**plan["cfg"])
+        c2.uuid = "sess1"
+        c2.start = cfg.first_of(T0)
+        ln = max(1, min(cap + 2, 60))
+        ops2 = [{"op": "w", "rel": 0, "_rel": 0, "len": ln, "salt": 8101}]
+        if ln < cap:   # stay clear of the first session's files
+            ops2.append({"op": "w", "rel": cap + 1, "_rel": cap + 1, "len": max(1, min(cap // 2, 40)), "salt": 8102})
+        if any(cfg.file_T(a + n - 1) >= files[0] for op in ops2 for a, n in RN.op_samples(c2, op)):
+            return
+        t2 = _UnionTracker(tracker1.model, Tracker(c2, ops2))
+        obs.uuid = None
+        node = K.Node(tree, _child(tree, c2, ops2), log_path=os.path.join(sc, "node2.log"))
+        k2 = 0
+        try:
+            while True:
+                ev = node.step()
+                if ev is None:
+                    break
+                if isinstance(ev, dict):
+                    t2.feed(ev)
+                    continue
+                res.trace.add("s2e", k2, ev.kind, ev.p1, ev.p2)
+                if not t2.t.unexpected_failure:
+                    obs.observe("backfill+%d" % k2, ev, t2, "second_session")
+                    res.evals += 1
+                node.go()
+                if _is_final_rename(ev):
+                    obs.finalized.add(_T_of(ev.p2))
+                if any(c[0] == "op" and not c[2] for c in t2.t.calls):
+                    t2.t.unexpected_failure = True
+                k2 += 1
+        finally:
+            node.kill()
+        if not t2.t.unexpected_failure:
+            obs.observe("backfill+end", None, t2, "second_session_closed")
+        res.probe("backfill_session_observed")
         return
     lo, hi = cfg.window(files[-1])
     c2 = M.Cfg(**plan["cfg"])
